@@ -172,6 +172,7 @@ type Val struct {
 	Nil   Term  // for structural pointers: condition under which the pointer is nil ("" = never)
 	Tuple []Val // multi-value results
 	Fn    *ssa.Function
+	Boxed *Val // value inside an interface / ranged-over value of an iterator
 }
 
 func scalar(t types.Type, term Term) Val { return Val{Typ: t, L: []Term{term}} }
